@@ -1771,6 +1771,82 @@ func stackedStream(c *cli.Ctx, r *emit.Rng) error {
 	return w.Flush()
 }
 
+// ---------- many rejected metrics in one Gather ----------
+
+// manyErrorsStream: 99, 100, 101, 150 and ~1000 rejected metrics (duplicates, invalid label names, failing Write, non-UTF-8
+// values) next to a few accepted ones in ONE Gather: every collected metric must be present or paid for by one error
+// (complete_or_reported on the implementation's output), also when the registry is gathered through Gatherers.
+func manyErrorsStream(c *cli.Ctx, r *emit.Rng) error {
+	w := emit.NewWriter(c.Out, "C09", "manyerrors")
+	var fl failures
+	setScheme(false)
+	for ci, nbad := range []int{99, 100, 101, 150, 1000 + r.Intn(50), 101, 257} {
+		d := prometheus.NewDesc("many", "h", []string{"a"}, nil)
+		reg := prometheus.NewRegistry()
+		rc := newRecorder()
+		col := &advCollector{}
+		ngood := 1 + r.Intn(4)
+		total := 0
+		add := func(m *dto.Metric, werr bool) {
+			x := rc.newRec(false)
+			total++
+			setPayload(m, 1, total)
+			col.metrics = append(col.metrics, &advMetric{r: rc, x: x, d: d, writeErr: werr, content: m})
+		}
+		for k := 0; k < ngood; k++ {
+			add(&dto.Metric{Label: []*dto.LabelPair{lp("a", fmt.Sprintf("good%d", k))}}, false)
+		}
+		for k := 0; k < nbad; k++ {
+			kind := k % 4
+			if ci >= 5 {
+				kind = 0 // only duplicates
+			}
+			switch kind {
+			case 0:
+				add(&dto.Metric{Label: []*dto.LabelPair{lp("a", "good0")}}, false)
+			case 1:
+				add(&dto.Metric{Label: []*dto.LabelPair{lp("__bad", fmt.Sprint(k))}}, false)
+			case 2:
+				add(&dto.Metric{Label: []*dto.LabelPair{lp("a", fmt.Sprint(k))}}, true)
+			case 3:
+				add(&dto.Metric{Label: []*dto.LabelPair{lp("a", fmt.Sprintf("%d\xff", k))}}, false)
+			}
+		}
+		if ci%2 == 1 { // accepted metrics after the rejected ones as well
+			add(&dto.Metric{Label: []*dto.LabelPair{lp("a", "tail")}}, false)
+			ngood++
+		}
+		reg.MustRegister(col)
+		out, pan := gatherWithWatchdog(reg)
+		idx := w.Len()
+		if pan != "" {
+			fl.add(idx, "Gather panicked: "+pan)
+		}
+		present := 0
+		for _, mf := range out.mfs {
+			present += len(mf.Metric)
+		}
+		if present+len(out.kinds) != total {
+			fl.add(idx, fmt.Sprintf("%d metrics collected, %d present, %d errors reported: %d metrics are neither present nor covered by the error", total, present, len(out.kinds), total-present-len(out.kinds)))
+		}
+		arr, _ := arrivalsTerm(rc)
+		w.Add(emit.Tup("0", "0", "0", idsTerm(reg), arr, familiesTerm(out.mfs), kindsTerm(out.kinds)), true, fmt.Sprintf("rejected:%d", nbad), fmt.Sprintf("accepted:%d", ngood))
+		// the same registry through Gatherers: the flattened error must still account for every missing metric
+		gout, gpan := gatherWithWatchdog(prometheus.Gatherers{reg})
+		gpresent := 0
+		for _, mf := range gout.mfs {
+			gpresent += len(mf.Metric)
+		}
+		if gpan != "" || gpresent+len(gout.kinds) != total {
+			fl.add(idx, fmt.Sprintf("through Gatherers: %d metrics collected, %d present, %d errors reported (panic %q)", total, gpresent, len(gout.kinds), gpan))
+		}
+	}
+	if len(fl.list) > 0 {
+		w.Extra["direct_failures"] = fl.list
+	}
+	return w.Flush()
+}
+
 // ---------- collectors that use the registry from within Collect ----------
 
 type reentrantCollector struct {
@@ -1991,6 +2067,9 @@ func runC09(c *cli.Ctx) error {
 		return err
 	}
 	if err := stackedStream(c, r.Fork()); err != nil {
+		return err
+	}
+	if err := manyErrorsStream(c, r.Fork()); err != nil {
 		return err
 	}
 	if err := reentrantStream(c, r.Fork()); err != nil {
